@@ -41,6 +41,7 @@ type c11World struct {
 	revDatt  string
 	session  string
 	session2 string
+	session3 string // a one-time session of carol
 	seqKnown map[uint64]string
 }
 
@@ -88,6 +89,12 @@ func c11Setup(t testing.TB) *c11World {
 		t.Fatalf("setup session: %v", err)
 	}
 	w.session = sess.ID
+	carol, _ := a.GetUser("carol")
+	once, err := a.CreateSession(ctx, carol, time.Hour, true)
+	if err != nil {
+		t.Fatalf("setup one-time session: %v", err)
+	}
+	w.session3 = once.ID
 	// an externally written document (not yet imported)
 	if err := coll.dataStore.SetRaw(ctx, "ext1", 0, nil, []byte(`{"channels":["A"],"ext":true}`)); err != nil {
 		t.Fatalf("setup ext1: %v", err)
@@ -177,6 +184,21 @@ func c11Ops() []c11Op {
 		}},
 		{Name: "user-update", Run: func(w *c11World) error {
 			_, _, err := w.v.db.UpdatePrincipal(w.v.ctx, &auth.PrincipalConfig{Name: base.Ptr("alice"), ExplicitChannels: base.SetOf("B"), ExplicitRoleNames: base.SetOf("r1")}, true, true)
+			return err
+		}},
+		{Name: "user-set-email", Run: func(w *c11World) error {
+			_, _, err := w.v.db.UpdatePrincipal(w.v.ctx, &auth.PrincipalConfig{Name: base.Ptr("alice"), Email: base.Ptr("alice@new.example.org")}, true, true)
+			return err
+		}},
+		{Name: "user-create-with-email", Run: func(w *c11World) error {
+			_, _, err := w.v.db.UpdatePrincipal(w.v.ctx, &auth.PrincipalConfig{Name: base.Ptr("bob"), Password: base.Ptr("letmein"), Email: base.Ptr("bob@new.example.org")}, true, false)
+			return err
+		}},
+		{Name: "one-time-session-use", Run: func(w *c11World) error {
+			u, err := w.v.db.Authenticator(w.v.ctx).AuthenticateOneTimeSession(w.v.ctx, w.session3)
+			if err == nil && u == nil {
+				return errors.New("not authenticated")
+			}
 			return err
 		}},
 		{Name: "user-disable", Run: func(w *c11World) error {
@@ -321,7 +343,18 @@ func c11Snapshot(w *c11World) string {
 		sort.Strings(roles)
 		exr := u.ExplicitRoles().AllKeys()
 		sort.Strings(exr)
-		out["user:"+name] = map[string]any{"disabled": u.Disabled(), "effective_channels": eff, "roles": roles, "explicit_roles": exr}
+		out["user:"+name] = map[string]any{"disabled": u.Disabled(), "effective_channels": eff, "roles": roles, "explicit_roles": exr, "email": u.Email()}
+	}
+	for _, email := range []string{"alice@new.example.org", "bob@new.example.org"} {
+		u, err := a.GetUserByEmail(email)
+		switch {
+		case err != nil:
+			out["email:"+email] = "error: " + err.Error()
+		case u == nil:
+			out["email:"+email] = "unregistered"
+		default:
+			out["email:"+email] = "registered to " + u.Name()
+		}
 	}
 	for _, name := range []string{"r1", "r2"} {
 		r, err := a.GetRole(name)
@@ -335,7 +368,7 @@ func c11Snapshot(w *c11World) string {
 		}
 		out["role:"+name] = "present"
 	}
-	for label, id := range map[string]string{"s1": w.session, "s2": w.session2} {
+	for label, id := range map[string]string{"s1": w.session, "s2": w.session2, "s3-one-time": w.session3} {
 		if id == "" {
 			out["session:"+label] = "none"
 			continue
